@@ -351,6 +351,8 @@ def fixed_summaries():
     ps = (0, [1, 0], ["c", "c"], [F(1)], [[F(1)], [H]])
     pp = (0, [1, 1], ["c", "c"], [F(1)], [[F(1)], [H]])
     dp = (0, [2], ["p"], [F(1)], [[F(1)]])
+    cp = (0, [1, 2], ["c", "p"], [F(1)], [[F(1)], [H]])
+    sd = (0, [0, 2], ["c", "c"], [F(1)], [[F(1)], [H]])
     mos = [None, c12.mk("r", 3, 3, occs=(F(1), F(2), F(0)))[1], c12.mk("r", 3, 3, occs=(F(2), F(1), F(0)))[1],
            c12.mk("r", 2, 2, occs=(F(2), F(0)), aminusb=(F(0), F(0)))[1],
            c12.mk("r", 2, 2, occs=(F(1), F(1)), aminusb=(F(1), F(-1)))[1],
@@ -359,8 +361,10 @@ def fixed_summaries():
            c12.mk("r", 2, 2)[1], c12.mk("u", 2, 1)[1], c12.mk("u", 2, 2, occs=(F(1), F(0), F(1), F(0)))[1],
            c12.mk("u", 2, 2, occs=(F(1), F(0), F(0), F(1)))[1], c12.mk("u", 2, 2, occs=(F(0), F(1), F(1), F(0)))[1],
            c12.mk("g", None, None, occs=(F(1), F(0)))[1], c12.mk("r", 1, 1, occs=(F(-1),))[1],
-           c12.mk("r", 3, 3, occs=(F(1), F(1), H))[1], c12.mk("r", 0, 0, occs=())[1]]
-    bases = [None, [], [s1], [sp], [ss], [ps], [pp], [dp], [s1, sp, dp], [sp, ss]]
+           c12.mk("r", 3, 3, occs=(F(1), F(1), H))[1], c12.mk("r", 0, 0, occs=())[1],
+           c12.mk("u", 3, 3, occs=(F(1), F(1), F(0), F(1), Q, F(0)))[1], c12.mk("u", 3, 3, occs=(F(1), Q, F(0), F(1), F(1), F(0)))[1],
+           c12.mk("u", 3, 2, occs=(F(1), F(1), F(1), F(1), H))[1], c12.mk("r", 3, 3, occs=(F(2), H, F(0)))[1]]
+    bases = [None, [], [s1], [sp], [ss], [ps], [pp], [dp], [cp], [sd], [s1, sp, dp], [sp, ss]]
     out = []
     for m in mos:
         for b in bases:
@@ -616,6 +620,9 @@ def prepare_variants(fmt):
         out.append(("u-alpha-hole", _mk_iodata(base, mo=uocc([1, 0, 1], [1, 1])), always_rej, 0))
         out.append(("u-beta-hole", _mk_iodata(base, mo=uocc([1, 1, 1], [0, 1])), always_rej, 0))
         out.append(("u-beta-fractional", _mk_iodata(base, mo=uocc([1, 1, 1], [1, 0.5])), always_rej, 0))
+        # beta fractional below the ALPHA electron count (beta: one electron, then 1/4)
+        out.append(("u-beta-fractional-low", _mk_iodata(base, mo=uocc([1, 1, 1], [1, 0.25])), always_rej, 0))
+        out.append(("u-alpha-fractional-low", _mk_iodata(base, mo=uocc([1, 0.25], [1, 1, 1])), always_rej, 0))
         out.append(("u-alpha-double", _mk_iodata(base, mo=uocc([2, 0], [1, 1])), always_rej, 0))
         nb = base.obasis.nbasis
         for key in ("post_scf_ao", "post_scf_spin_ao"):
@@ -625,7 +632,8 @@ def prepare_variants(fmt):
         out.append(("no-mo", _mk_iodata(base, mo=None, nelec=float(base.nelec)), never_rej, 0))
     # --- basis ------------------------------------------------------------------------------------
     s0 = shells[0]
-    gens = [("sp", [0, 1]), ("ss", [0, 0]), ("ps", [1, 0]), ("pp", [1, 1]), ("spd", [0, 1, 2]), ("sss", [0, 0, 0])]
+    gens = [("sp", [0, 1]), ("ss", [0, 0]), ("ps", [1, 0]), ("pp", [1, 1]), ("sd", [0, 2]), ("dp", [2, 1]),
+            ("spd", [0, 1, 2]), ("sss", [0, 0, 0])]
     for label, ls in gens:
         obj = _with_shells(base, [_gshell(s0, ls), *shells[1:]])
         if label == "sp" and fmt == "fchk":
@@ -639,6 +647,8 @@ def prepare_variants(fmt):
     out.append(("pure-d", pure, always_rej if fmt in ("wfn", "wfx") else never_rej, 0))
     pure_gen = _with_shells(base, [*shells, _gshell(s0, [2, 2], ["p", "p"])])
     out.append(("pure-in-generalized", pure_gen, always_rej if fmt in ("wfn", "wfx") else unless_allowed, 1))
+    mixed = _with_shells(base, [*shells, _gshell(s0, [1, 2], ["c", "p"])])  # first contraction Cartesian, second pure
+    out.append(("cart+pure-in-generalized", mixed, always_rej if fmt in ("wfn", "wfx") else unless_allowed, 1))
     if seg:
         both = _with_shells(base, [_gshell(s0, [0, 1]), *shells[1:]], mo=occs(pad([2, 2, 2, 1, 1]), pad([0, 0, 0, 1, 1])))
         out.append(("aminusb+shell-sp", both, unless_allowed, 2))
